@@ -148,7 +148,7 @@ fn fuzz_scenario(rng: &mut Rng) -> Scenario {
                             1 => ElOp::SetTagName(fuzz_string(rng)),
                             2 => ElOp::RemoveAttr(fuzz_string(rng)),
                             3 => ElOp::GetAttr(fuzz_string(rng)),
-                            _ => ElOp::Before(Content { s: fuzz_string(rng), html: rng.bool(), stream: rng.below(4) as u8, fail_stream: false }),
+                            _ => ElOp::Before(Content { s: fuzz_string(rng), html: rng.bool(), stream: rng.below(4) as u8, fail_stream: false, utf8_chunks: 0 }),
                         };
                     }
                 }
@@ -170,7 +170,7 @@ fn fuzz_scenario(rng: &mut Rng) -> Scenario {
         sc.joins = wl::random_joins(rng, &sc.handlers);
     }
     for _ in 0..rng.below(3) {
-        sc.bailout.push(vec![Content { s: fuzz_string(rng), html: rng.bool(), stream: 0, fail_stream: false }]);
+        sc.bailout.push(vec![Content { s: fuzz_string(rng), html: rng.bool(), stream: 0, fail_stream: false, utf8_chunks: 0 }]);
     }
     let kind = rng.pick(wl::SCHED_KINDS);
     sc.cuts = wl::schedule(rng, &sc.doc, kind);
@@ -439,7 +439,7 @@ impl Property for C15 {
                         let sc2 = sc.clone();
                         let (t, ok) = on_big_stack(move || {
                             let t0 = thread_cpu_seconds();
-                            let r = driver::run_opts(&sc2, &driver::RunOpts { record_charges: false, light: true });
+                            let r = driver::run_opts(&sc2, &driver::RunOpts { record_charges: false, light: true, record_positions: false });
                             (thread_cpu_seconds() - t0, r.map(|h| h.is_ok()))
                         });
                         if ok != Ok(true) {
